@@ -164,8 +164,28 @@ func (e *Ed) Verify(a oted.Pt, sig, msg []byte, h hash.Hash) Decision {
 	return e.Equation(a, r, s, k)
 }
 
-// Equation: [c][S]B == [c](R + [k]A).
+// Equation: [c][S]B == [c](R + [k]A), evaluated as [c]([S]B + [k](-A) - R) == O with a simultaneous
+// double-and-add over the unified affine law.
 func (e *Ed) Equation(a, r oted.Pt, s, k *big.Int) Decision {
+	c := e.C
+	d, ok := e.jointMul(e.B, s, c.Neg(a), k)
+	if !ok {
+		return Decision{Undef: true}
+	}
+	if d, ok = c.Add(d, c.Neg(r)); !ok {
+		return Decision{Undef: true}
+	}
+	if d, ok = c.TryMul(d, e.Cof); !ok {
+		return Decision{Undef: true}
+	}
+	if c.Eq(d, c.Zero()) {
+		return Decision{Accept: true, Reason: "equation-holds"}
+	}
+	return Decision{Reason: "equation-fails"}
+}
+
+// EquationPlain evaluates both sides separately (used to cross-check Equation).
+func (e *Ed) EquationPlain(a, r oted.Pt, s, k *big.Int) Decision {
 	c := e.C
 	sb, ok := c.TryMul(e.B, s)
 	if !ok {
@@ -191,6 +211,39 @@ func (e *Ed) Equation(a, r oted.Pt, s, k *big.Int) Decision {
 		return Decision{Accept: true, Reason: "equation-holds"}
 	}
 	return Decision{Reason: "equation-fails"}
+}
+
+func (e *Ed) jointMul(p oted.Pt, a *big.Int, q oted.Pt, b *big.Int) (oted.Pt, bool) {
+	c := e.C
+	pq, ok := c.Add(p, q)
+	if !ok {
+		return oted.Pt{}, false
+	}
+	r := c.Zero()
+	n := a.BitLen()
+	if b.BitLen() > n {
+		n = b.BitLen()
+	}
+	for i := n - 1; i >= 0; i-- {
+		if r, ok = c.Add(r, r); !ok {
+			return oted.Pt{}, false
+		}
+		var t oted.Pt
+		switch a.Bit(i) | b.Bit(i)<<1 {
+		case 0:
+			continue
+		case 1:
+			t = p
+		case 2:
+			t = q
+		case 3:
+			t = pq
+		}
+		if r, ok = c.Add(r, t); !ok {
+			return oted.Pt{}, false
+		}
+	}
+	return r, true
 }
 
 // Nonce is the documented deterministic nonce: big-endian integer of the first N bytes of
